@@ -182,8 +182,12 @@ func C12(c *core.Ctx) {
 		_ = os.WriteFile(filepath.Join(proj, "compose.yaml"), []byte(mainDoc), 0o644)
 		key := fmt.Sprintf("%s %q from %s", row, shape, origin)
 		c.Eval(key, enforced)
-		p, lerr := safeLoad(proj, nil, []namedDoc{{Name: filepath.Join(proj, "compose.yaml")}})
-		rep := map[string]interface{}{"row": row, "shape": shape, "origin": origin, "main": mainDoc, "expected": want}
+		// the resolution rules do not depend on the checks that are switched off: every third case is loaded without schema
+		// validation, every third without the consistency check
+		variant := [](func(*loader.Options)){func(*loader.Options) {}, func(o *loader.Options) { o.SkipValidation = true }, func(o *loader.Options) { o.SkipConsistencyCheck = true }}[n%3]
+		key += []string{"", " [SkipValidation]", " [SkipConsistencyCheck]"}[n%3]
+		p, lerr := safeLoad(proj, nil, []namedDoc{{Name: filepath.Join(proj, "compose.yaml")}}, variant)
+		rep := map[string]interface{}{"row": row, "shape": shape, "origin": origin, "main": mainDoc, "expected": want, "variant": n % 3}
 		if n%37 == 1 {
 			c.Sample(rep)
 		}
